@@ -404,6 +404,12 @@ pub fn c06_worker(ctx: &mut Ctx) {
         if let Err((sym, detail)) = c06_check(&case, false, &mut laws) {
             ctx.violation(&sym, &detail, boolean_replay("C06", &case, None, false, Pairing::MM, json!({})));
         }
+        if case.f32_ok && i % 4 == 0 {
+            ctx.cnt("cases_also_run_in_f32", 1);
+            if let Err((sym, detail)) = c06_check(&case, true, &mut laws) {
+                ctx.violation(&format!("f32:{}", sym), &detail, boolean_replay("C06", &case, None, true, Pairing::MM, json!({})));
+            }
+        }
         if nontrivial(&case) {
             ctx.note_nontrivial(case_hash(&case, ""));
         }
@@ -529,6 +535,13 @@ pub fn c07_worker(ctx: &mut Ctx) {
         if let Err((sym, detail)) = c07_check(&case, &mut r2, false, &mut counts) {
             ctx.violation(&sym, &detail, boolean_replay("C07", &case, None, false, Pairing::MM, json!({"rerepresent_stream": i, "seed": ctx.seed})));
         }
+        if case.f32_ok && i % 4 == 0 {
+            ctx.cnt("cases_also_run_in_f32", 1);
+            let mut r3 = ctx.rng("rerepresent", i);
+            if let Err((sym, detail)) = c07_check(&case, &mut r3, true, &mut counts) {
+                ctx.violation(&format!("f32:{}", sym), &detail, boolean_replay("C07", &case, None, true, Pairing::MM, json!({"rerepresent_stream": i, "seed": ctx.seed})));
+            }
+        }
         if nontrivial(&case) {
             ctx.note_nontrivial(case_hash(&case, ""));
         }
@@ -561,9 +574,16 @@ pub fn c08_check(case: &Case, rng: &mut Rng, f32_run: bool, counts: &mut std::co
     let exact = if f32_run { case.exact_f32 } else { case.exact };
     let base: Vec<MP> = OPS.iter().map(|&op| run(&case.a, &case.b, op, f32_run)).collect::<Result<_, _>>()?;
     // power-of-two scaling: bit-identical, polygon order included
-    let kmax = if f32_run { 30 } else { 200 };
+    // "without overflow/underflow": the library forms fourth powers of lengths (squared cross products); in f32 the
+    // scaled coordinate magnitude is kept within [1e-4, 1e7] so that those stay normal numbers
+    let (kmin, kmax) = if f32_run {
+        let sc = case.scale();
+        (((1e-4 / sc).log2().ceil() as i64).min(0), ((1e7 / sc).log2().floor() as i64).max(0))
+    } else {
+        (-200, 200)
+    };
     for _ in 0..2 {
-        let k = rng.range(-kmax, kmax) as i32;
+        let k = rng.range(kmin, kmax) as i32;
         let s = (2.0f64).powi(k);
         let sc = |p: Pt| (p.0 * s, p.1 * s);
         let (a2, b2) = (map_mp(&case.a, &sc), map_mp(&case.b, &sc));
@@ -621,6 +641,13 @@ pub fn c08_worker(ctx: &mut Ctx) {
         let mut r2 = ctx.rng("transform", i);
         if let Err((sym, detail)) = c08_check(&case, &mut r2, false, &mut counts) {
             ctx.violation(&sym, &detail, boolean_replay("C08", &case, None, false, Pairing::MM, json!({"stream": i, "seed": ctx.seed})));
+        }
+        if case.f32_ok && i % 4 == 0 {
+            ctx.cnt("cases_also_run_in_f32", 1);
+            let mut r3 = ctx.rng("transform", i);
+            if let Err((sym, detail)) = c08_check(&case, &mut r3, true, &mut counts) {
+                ctx.violation(&format!("f32:{}", sym), &detail, boolean_replay("C08", &case, None, true, Pairing::MM, json!({"stream": i, "seed": ctx.seed})));
+            }
         }
         if nontrivial(&case) {
             ctx.note_nontrivial(case_hash(&case, ""));
@@ -773,6 +800,12 @@ pub fn c09_worker(ctx: &mut Ctx) {
         ctx.evaluations += 1;
         if let Err((sym, detail)) = c09_check(&case, false, &mut counts) {
             ctx.violation(&sym, &detail, boolean_replay("C09", &case, None, false, Pairing::MM, json!({})));
+        }
+        if case.f32_ok && case.exact_f32 && i % 4 == 0 {
+            ctx.cnt("cases_also_run_in_f32", 1);
+            if let Err((sym, detail)) = c09_check(&case, true, &mut counts) {
+                ctx.violation(&format!("f32:{}", sym), &detail, boolean_replay("C09", &case, None, true, Pairing::MM, json!({})));
+            }
         }
         if nontrivial(&case) {
             ctx.note_nontrivial(case_hash(&case, ""));
